@@ -77,6 +77,13 @@ def main():
         om = torch.rand(n, dtype=torch.float64) * 5
         de = torch.rand(n, dtype=torch.float64) * 4 - 2
         ph = torch.rand(n, dtype=torch.float64) * rnd.choice([0.0, 3.0])
+        if t % 5 == 2:
+            # corner phases (sin or cos vanish): the same on all atoms, or mixed with zero (an SLM-masked atom)
+            import math
+            corner = [math.pi, -math.pi, math.pi / 2, -math.pi / 2, 2 * math.pi, 3 * math.pi][(t // 5) % 6]
+            ph = torch.full((n,), corner, dtype=torch.float64)
+            if (t // 5) % 2 and n > 1:
+                ph[rnd.randrange(n)] = 0.0
         # boundary families: a delay (no drive at all, the interaction still acts), amplitude only,
         # detuning only, one idle atom
         fam = t % 6
@@ -100,7 +107,8 @@ def main():
                                           ph.to(torch.complex128), U, psi.clone(), 1e-10, [])
         ref = torch.linalg.matrix_exp(-1j * dt * dense_h(om, de, ph, U)) @ psi
         if (out - ref).norm() > 1e-6:
-            print(f"REPRODUCED: n={n} dt={dt}: |evolve(psi) - exp(-i dt H) psi| = {(out - ref).norm().item():.3g}")
+            print(f"REPRODUCED: n={n} dt={dt} phases={[round(x, 6) for x in ph.tolist()]}: "
+                  f"|evolve(psi) - exp(-i dt H) psi| = {(out - ref).norm().item():.3g}")
             return 1
     # a long run of steps whose parameters change very little from one step to the next (a slow detuning ramp),
     # same interaction-matrix object throughout: state kept between steps (a cached diagonal, a reused operator)
